@@ -19,7 +19,7 @@ pub fn meta() -> Meta {
     Meta {
         id: "C06",
         level: "exploration",
-        rule: "forged tables through the real apply_filters+write_fasta and filter(update_kmers)+iter, compared with the row predicate of the statement: (a) every row over the 16 symbols {A,C,G,T,-,R,Y,S,W,K,M,B,D,H,V,N} for 1..3 samples and over {A,C,-,N,R,S} for 4..5 samples (thorough: all 16 symbols for 4 samples, {A,C,G,-,N,R,S,W} for 5) as a one-row table; (b) every ordered pair of 40 representative rows and every ordered triple of 12 (3 samples), both update_kmers settings, so the three parallel vectors must stay aligned under removal; (c) 6..12 samples with 'j copies of x, rest y' rows; each x 4 site filters x ambig-mask x no-gap-only-sites x filter-ambig-as-missing x every threshold 0..n (frequencies (t-1/2)/n, and additionally t/n where that product is exact in f64); plus a CLI family (each case as a k=5 file and, under 32-letter keys, as a k=33 file read through the 128-bit arm) through `ska align` option parsing; decimal --min-freq values whose product with 10 / 20 samples is a whole number, through `ska align` and `ska weed`. Non-trivial = a (table, setting) pair; distinct outcomes = distinct expected column multisets.".into(),
+        rule: "forged tables through the real apply_filters+write_fasta and filter(update_kmers)+iter, compared with the row predicate of the statement: (a) every row over the 16 symbols {A,C,G,T,-,R,Y,S,W,K,M,B,D,H,V,N} for 1..3 samples and over {A,C,-,N,R,S} for 4..5 samples (thorough: all 16 symbols for 4 samples, {A,C,G,-,N,R,S,W} for 5) as a one-row table; (b) every ordered pair of 40 representative rows and every ordered triple of 12 (3 samples), both update_kmers settings, so the three parallel vectors must stay aligned under removal; (c) 6..12 samples with 'j copies of x, rest y' rows; each x 4 site filters x ambig-mask x no-gap-only-sites x filter-ambig-as-missing x every threshold 0..n (frequencies (t-1/2)/n, and additionally t/n where that product is exact in f64); plus a tables of every row count 1..200 (thorough 600) and of 31..129 samples under a selection of specifications; CLI family (each case as a k=5 file and, under 32-letter keys, as a k=33 file read through the 128-bit arm) through `ska align` option parsing; decimal --min-freq values whose product with 10 / 20 samples is a whole number, through `ska align` and `ska weed`. Non-trivial = a (table, setting) pair; distinct outcomes = distinct expected column multisets.".into(),
         assumptions: vec!["all-gap rows are unreachable (asserted as an invariant by C10) and excluded".into(), "thresholds use frequencies whose ceil is robust in f64 (DESIGN §4 rule 2)".into()],
         exhaustive_when_uncapped: true,
     }
@@ -292,6 +292,57 @@ pub fn run(ctx: &Ctx, rep: &mut Report) {
             }
             rep.completed.push(format!("(c) {n} samples"));
         }
+    }
+    // sizes around powers of two: every row count 1..200 (three samples, cycling patterns) and sample counts around 32,
+    // 64, 128 (five rows), each under a handful of filter specifications
+    if !capped {
+        let specs: Vec<FilterSpec> = all_specs(3).into_iter().filter(|f| f.thr <= 2 && !(f.mask && f.nogap)).step_by(5).collect();
+        let patterns: [&[u8; 3]; 8] = [b"ACA", b"AAA", b"A-C", b"-AC", b"RAG", b"GG-", b"NNA", b"C--"];
+        for nrows in 1..=(if thorough { 600usize } else { 200 }) {
+            idx += 1;
+            if !ctx.mine(idx) {
+                continue;
+            }
+            let mut rows = BTreeMap::new();
+            for i in 0..nrows {
+                rows.insert(String::from_utf8(nth_string(b"ACGT", 6, (i as u64 * 911) % 4096)).unwrap(), patterns[(i * 3 + i / 8) % 8].to_vec());
+            }
+            let t = Table { k: 7, rc: true, names: (0..3).map(|i| format!("s{i}")).collect(), rows };
+            for f in specs.iter().skip(nrows % 3).step_by(3) {
+                rep.evaluations += 1;
+                rep.nontrivial += 1;
+                if let Err(e) = check_one(&t, f, nrows % 2 == 0) {
+                    rep.violate(format!("row count {nrows} spec={}", spec_json(f)), format!("{nrows} rows: {e}"), json!({"nrows": nrows, "spec": spec_json(f)}));
+                }
+            }
+            if nrows % 64 == 0 {
+                rep.corner("row_count_multiple_of_64");
+            }
+        }
+        for n in [31usize, 32, 33, 63, 64, 65, 127, 128, 129] {
+            idx += 1;
+            if !ctx.mine(idx) {
+                continue;
+            }
+            let rowf = |f: &dyn Fn(usize) -> u8| -> Vec<u8> { (0..n).map(f).collect() };
+            let rows = vec![
+                rowf(&|i| b"ACG-"[i % 4]),
+                rowf(&|i| if i % 2 == 0 { b'A' } else { b'R' }),
+                rowf(&|i| if i == n - 1 { b'T' } else { b'G' }),
+                rowf(&|i| if i >= n / 2 { b'-' } else { b'A' }),
+                rowf(&|i| if i == 0 || i == n - 1 { b'C' } else { b'-' }),
+            ];
+            let t = table_of(&rows);
+            for f in all_specs(n).into_iter().filter(|f| [0, 1, 2, n / 2, n - 1, n].contains(&f.thr)).step_by(7) {
+                rep.evaluations += 1;
+                rep.nontrivial += 1;
+                rep.corner("sample_counts_around_powers_of_two");
+                if let Err(e) = check_one(&t, &f, true) {
+                    rep.violate(format!("{n} samples spec={}", spec_json(&f)), format!("{n} samples: {e}"), json!({"samples": n, "spec": spec_json(&f)}));
+                }
+            }
+        }
+        rep.completed.push("sizes around powers of two".into());
     }
     // CLI family
     if !capped {
